@@ -537,27 +537,59 @@ def r_chart(m, rep, R):
               'update does not select cell (row, column)')
     if cellv is None:
         return
-    drop = ('bin', '&&', ('un', '!', M(('this',), 'nbest_')), ('mcall', cellv, 'contains', (M(V(pr[2]), 'cat'),)))
+    # the n-best flag: the bool field initialised from the constructor's second parameter
+    flag = None
+    for ctor in [k for k in ch.kids if k.kind == 'CXXConstructorDecl' and len(cxx.params_of(k)) == 2]:
+        p2 = cxx.params_of(ctor)[1].name
+        for init in ctor.kids:
+            if init.kind == 'CXXCtorInitializer':
+                refs = [x.ref for x in init.walk() if x.kind == 'DeclRefExpr']
+                if refs == [p2]:
+                    # clang prints the member as anyMemberDecl / name on the initializer
+                    flag = init.name
+    if flag is None:
+        flags = [f for f in cxx.fields_of(ch) if f in ('nbest_',)]
+        flag = flags[0] if flags else None
+    if flag is None:
+        raise AnalysisError('%s: cannot identify the n-best flag of chart' % H)
+    A_ = M(('this',), flag)
+    B_ = ('mcall', cellv, 'contains', (M(V(pr[2]), 'cat'),))
     keep_ret = ('addr', ('mcall', cellv, 'emplace', (V(pr[2]),)))
-    null_paths = [p for p in P.paths if p[2] == LIT(None)]
-    keep_paths = [p for p in P.paths if p[2] is not None and p[2] != LIT(None)]
 
-    def pathcond(p):
-        # conjunction of the conditions along the path, as canonical set
-        out = []
-        for c, pol in p[0]:
-            if pol:
-                out += [canon(x) for x in conjuncts(c)]
-            else:
-                out.append('!' + canon(c))
-        return sorted(out)
-    ok = (len(null_paths) == 1 and len(keep_paths) == 1
-          and pathcond(null_paths[0]) == sorted(canon(x) for x in conjuncts(drop))
-          and canon(keep_paths[0][2]) == canon(keep_ret)
-          and not [e for e in null_paths[0][1] if e[0] != 'decl'])
+    def evalc(c, env_):
+        if c in env_:
+            return env_[c]
+        if c[0] == 'un' and c[1] == '!':
+            v = evalc(c[2], env_)
+            return None if v is None else not v
+        if c[0] == 'bin' and c[1] in ('&&', '||'):
+            a, b = evalc(c[2], env_), evalc(c[3], env_)
+            if a is None or b is None:
+                return None
+            return (a and b) if c[1] == '&&' else (a or b)
+        if c[0] == 'lit' and isinstance(c[1], bool):
+            return c[1]
+        return None
+    ok = True
+    table = []
+    for a in (False, True):
+        for b in (False, True):
+            env_ = {A_: a, B_: b}
+            taken = []
+            for p_ in P.paths:
+                vals = [evalc(c, env_) for c, pol in p_[0]]
+                if any(v is None for v in vals):
+                    ok = False
+                if all(v == pol for v, (c, pol) in zip(vals, p_[0])):
+                    taken.append(p_)
+            want_null = (not a) and b
+            good = len(taken) == 1 and ((taken[0][2] == LIT(None)) if want_null else (taken[0][2] is not None and canon(taken[0][2]) == canon(keep_ret))) \
+                and not [e for e in taken[0][1] if e[0] != 'decl']
+            ok = ok and good
+            table.append((a, b, canon(taken[0][2]) if len(taken) == 1 and taken[0][2] else None))
     rep.check(ok, R, _w(upd.line, 'chart::update'), 'update:first-pop-wins',
-              'update returns nullptr exactly when !nbest && cell.contains(item.cat), otherwise stores the item',
-              'update paths are %s' % [(pathcond(p), canon(p[2]) if p[2] else None) for p in P.paths])
+              'update returns nullptr exactly when !nbest && cell.contains(item.cat), otherwise stores the item (decision table over the two tests)',
+              'update decision table (nbest, contains) -> result is %s' % table)
     cell = None
     for k in ch.walk():
         if k.kind == 'CXXRecordDecl' and k.name == 'cell' and cxx.fields_of(k):
@@ -568,8 +600,10 @@ def r_chart(m, rep, R):
     p = Paths(con).paths
     a = cxx.params_of(con)[0].name
     cnt = ('mcall', M(('this',), 'category_ids'), 'count', (V(a),))
+    cids = M(('this',), 'category_ids')
     accepted = {canon(('bin', '>', cnt, LIT(0))), canon(('bin', '!=', cnt, LIT(0))),
-                canon(('bin', '>=', cnt, LIT(1))), canon(cnt)}
+                canon(('bin', '>=', cnt, LIT(1))), canon(cnt),
+                canon(('bin', '!=', ('mcall', cids, 'find', (V(a),)), ('mcall', cids, 'end', ())))}
     rep.check(len(p) == 1 and p[0][2] is not None and canon(p[0][2]) in accepted, R,
               _w(con.line, 'cell::contains'), 'cell:contains', 'cell.contains(c) tests membership of c in the cell\'s category set',
               'cell.contains is %s' % (canon(p[0][2]) if p and p[0][2] else '?'))
@@ -633,6 +667,23 @@ def r_chart(m, rep, R):
     p = Paths(csz).paths
     ok = len(p) == 1 and p[0][2] is not None and canon(p[0][2]) == canon(('mcall', M(('this',), 'items'), 'size', ()))
     rep.check(ok, R, _w(csz.line, 'cell::size'), 'cell:size', 'cell.size() is items.size()', 'cell.size() is something else')
+
+
+def _nonnull_guard(c, pol, E, call):
+    """does the guard (c, pol) establish that E (the result of chart.update) is not null?"""
+    while c[0] == 'un' and c[1] == '!':
+        c, pol = c[2], not pol
+    asg = ('bin', '=', E, call)
+    if c[0] == 'bin' and c[1] in ('!=', '=='):
+        a, b = c[2], c[3]
+        if b in (E, asg) and a == LIT(None):
+            a, b = b, a
+        if a in (E, asg) and b == LIT(None):
+            return pol if c[1] == '!=' else not pol
+        return False
+    if c in (E, asg):
+        return pol
+    return False
 
 
 def search_shape(m):
@@ -700,17 +751,15 @@ def r_search_loop(m, rep, R):
         rep.check(ok, R, _w(node.line), 'search:update-args',
                   'the popped item is offered to chart cell (start, span_length-1)',
                   'chart.update is called with (%s)' % ', '.join(canon(a) for a in call[3]))
-        accepted = {canon(('bin', '!=', ('bin', '=', E, call), LIT(None))), canon(('bin', '!=', E, LIT(None))),
-                    canon(E), canon(('bin', '=', E, call))}
-        for s in m.sites:
-            if s.kind == 'leaf':
+        for s_ in m.sites:
+            if s_.kind == 'leaf':
                 continue
-            g = [c for c in s.ctx if c[0] == 'if' and c[2] is True and canon(c[1]) in accepted]
-            pl = unaddr(s.f['left']) if s.kind != 'binary' else None
-            uses_E = (s.kind != 'binary' and pl == E) or (s.kind == 'binary' and E in (unaddr(s.f['left']), unaddr(s.f['right'])))
-            rep.check(bool(g) and uses_E, R, s.where(), 'search:expand-guard:%s' % s.kind,
-                      '%s expansion happens only for the entry the chart accepted (update(..) != nullptr) and uses that entry' % s.kind,
-                      '%s expansion is not guarded by a successful chart.update, or does not use its result' % s.kind)
+            g = [c for c in s_.ctx if c[0] == 'if' and _nonnull_guard(c[1], c[2], E, call)]
+            pl = unaddr(s_.f['left']) if s_.kind != 'binary' else None
+            uses_E = (s_.kind != 'binary' and pl == E) or (s_.kind == 'binary' and E in (unaddr(s_.f['left']), unaddr(s_.f['right'])))
+            rep.check(bool(g) and uses_E, R, s_.where(), 'search:expand-guard:%s' % s_.kind,
+                      '%s expansion happens only for the entry the chart accepted (update(..) != nullptr) and uses that entry' % s_.kind,
+                      '%s expansion is not guarded by a successful chart.update, or does not use its result' % s_.kind)
     else:
         rep.violation(R, _w(m.main_loop.line), 'search:update', 'the popped item is never offered to chart.update')
     # status
@@ -862,67 +911,104 @@ def r_rule_ids(m, rep, R):
               'combinator_result fields are %s' % m.result_fields)
 
 
+def _call_op(m, name):
+    d = m.locals[name]
+    lam = d.find('LambdaExpr')
+    ops = [k for k in lam[0].walk() if k.kind == 'CXXMethodDecl' and k.name == 'operator()'] if lam else []
+    if not ops:
+        raise AnalysisError('%s: lambda %s has no call operator' % (H, name))
+    return ops[0]
+
+
 def r_cache(m, rep, R):
-    """both rule lambdas memoise per key: fill only when absent, never erase, return the stored vector."""
-    for kind, cbparam, key2 in (('binary', m.p_bin, None), ('unary', m.p_un, 'UINT_MAX')):
-        d = m.locals[m.lam[kind]]
-        lam = d.find('LambdaExpr')[0]
-        call_op = [k for k in lam.walk() if k.kind == 'CXXMethodDecl' and k.name == 'operator()']
-        if not call_op:
-            raise AnalysisError('%s: lambda %s has no call operator' % (H, d.name))
-        fn = call_op[0]
+    """both rule lambdas memoise per (x, y) key: the callback is asked only when the key is absent, nothing is erased or
+    overwritten, and the stored vector is what is returned.  The two lambdas may share one helper lambda."""
+    for kind, cbparam in (('binary', m.p_bin), ('unary', m.p_un)):
+        name = m.lam[kind]
+        fn = _call_op(m, name)
         env = cxx.Env(fn)
         pr = [p.name for p in cxx.params_of(fn)]
+        w = _w(fn.line, 'parse_sentence::' + name)
+        # a thin wrapper around a shared helper lambda?
         P = Paths(fn, env)
+        core_fn, core_name, bind = fn, name, None
+        if len(P.paths) == 1 and not P.paths[0][1] and P.paths[0][2] is not None:
+            r = P.paths[0][2]
+            if r[0] == 'idx' and r[1][0] == 'var' and r[1][1] in m.locals and (m.locals[r[1][1]].type or '').startswith('(lambda'):
+                core_name = r[1][1]
+                core_fn = _call_op(m, core_name)
+                cpr = [p.name for p in cxx.params_of(core_fn)]
+                args = r[2]
+                okw = len(args) == len(cpr) == 3 and args[0] == V(cbparam) and args[1] == V(pr[0]) and \
+                    (args[2] == V(pr[1]) if kind == 'binary' else not [x for x in subterms(args[2]) if x[0] in ('var', 'mem', 'call', 'mcall', 'idx')])
+                rep.check(okw, R, w, 'cache:%s:wrapper' % kind,
+                          '%s lambda forwards (%s callback, its own ids%s) to the shared lookup %s' % (kind, kind, '' if kind == 'binary' else ', UINT_MAX', core_name),
+                          '%s lambda forwards %s to %s' % (kind, [show(a) for a in args], core_name))
+                bind = {'cb': cpr[0], 'x': cpr[1], 'y': cpr[2]}
+        fn2 = core_fn
+        env2 = cxx.Env(fn2)
+        pr2 = [p.name for p in cxx.params_of(fn2)]
+        if bind is None:
+            bind = {'cb': None, 'x': pr2[0], 'y': pr2[1] if kind == 'binary' and len(pr2) > 1 else None}
+        w2 = _w(fn2.line, 'parse_sentence::' + core_name)
         keyv = None
-        for v in fn.find('VarDecl'):
-            if 'pair<unsigned int, unsigned int>' in (v.type or ''):
+        for v in fn2.find('VarDecl'):
+            if (v.type or '').replace('const ', '').strip() in ('std::pair<unsigned int, unsigned int>', 'pair<unsigned int, unsigned int>') \
+                    or (v.dtype or '').replace('const ', '').strip() == 'std::pair<unsigned int, unsigned int>':
                 keyv = v
-        w = _w(fn.line, 'parse_sentence::' + d.name)
         if keyv is None:
-            rep.violation(R, w, 'cache:%s:key' % kind, 'cache key pair not found in lambda')
+            rep.violation(R, w2, 'cache:%s:key' % kind, 'cache key pair not found in lambda %s' % core_name)
             continue
-        kt = term(env.init_of(keyv), env)
-        kargs = kt[2] if kt[0] == 'ctor' else ()
-        if kind == 'binary':
-            okk = [canon(a) for a in kargs] == [canon(V(pr[0])), canon(V(pr[1]))]
+        kt = term(env2.init_of(keyv), env2)
+        kargs = kt[2] if kt[0] == 'ctor' else (kt[1] if kt[0] == 'init' else ())
+        if bind['y'] is not None:
+            okk = [canon(a) for a in kargs] == [canon(V(bind['x'])), canon(V(bind['y']))]
         else:
-            # second component: a constant expression (UINT_MAX after macro expansion)
-            okk = len(kargs) == 2 and canon(kargs[0]) == canon(V(pr[0])) and \
+            okk = len(kargs) == 2 and canon(kargs[0]) == canon(V(bind['x'])) and \
                 not [x for x in subterms(kargs[1]) if x[0] in ('var', 'mem', 'call', 'mcall', 'idx')]
-        rep.check(okk, R, w, 'cache:%s:key' % kind, '%s cache key is built from the argument ids in order' % kind,
+        rep.check(okk, R, w2, 'cache:%s:key' % kind, '%s cache key is built from the argument ids in order' % kind,
                   '%s cache key is (%s)' % (kind, ', '.join(canon(a) for a in kargs)))
         K = V(keyv.name)
         cache = V(m.p_cache)
-        absent = {canon(('bin', '==', ('mcall', cache, 'count', (K,)), LIT(0))),
-                  canon(('un', '!', ('mcall', cache, 'count', (K,))))}
-        calls = fn.find('CXXMemberCallExpr')
+        # the iterator-based variant: auto it = cache->find(key)
+        itv = None
+        for v in fn2.find('VarDecl'):
+            i = env2.init_of(v)
+            if i is not None and canon(term(i, env2)) == canon(('mcall', cache, 'find', (K,))):
+                itv = V(v.name)
+        absent = {canon(('bin', '==', ('mcall', cache, 'count', (K,)), LIT(0))), canon(('un', '!', ('mcall', cache, 'count', (K,))))}
+        if itv is not None:
+            absent.add(canon(('bin', '==', itv, ('mcall', cache, 'end', ()))))
         muts = []
-        for n in calls:
+        for n in fn2.find('CXXMemberCallExpr'):
             c = strip(n.kids[0])
-            if c.kids and term(c.kids[0], env) == cache and c.name not in ('count', 'at', 'find', 'end'):
+            if c.kids and term(c.kids[0], env2) == cache and c.name not in ('count', 'at', 'find', 'end', 'cend'):
                 muts.append((c.name, n))
         ok = len(muts) == 1 and muts[0][0] in ('emplace', 'insert')
         if ok:
             n = muts[0][1]
-            ctx = cxx.context(n, env)
+            ctx = cxx.context(n, env2)
             ok = any(c[0] == 'if' and c[2] is True and canon(c[1]) in absent for c in ctx)
-            args = [term(a, env) for a in n.kids[1:]]
+            args = [term(a, env2) for a in n.kids[1:]]
             ok = ok and len(args) == 2 and args[0] == K
-        rep.check(ok, R, w, 'cache:%s:fill' % kind,
+        rep.check(ok, R, w2, 'cache:%s:fill' % kind,
                   '%s cache entry is created only when the key is absent and is never overwritten or erased' % kind,
                   '%s cache is modified by %s' % (kind, [x[0] for x in muts]))
-        rets = [p[2] for p in P.paths]
-        ok = bool(rets) and all(r is not None and canon(r) == canon(('addr', ('mcall', cache, 'at', (K,)))) for r in rets)
-        rep.check(ok, R, w, 'cache:%s:return' % kind, '%s lambda returns the stored vector for the key' % kind,
-                  '%s lambda returns %s' % (kind, [canon(r) if r else None for r in rets]))
-        # scaffold(callback, x, y, &results)
-        sc = [term(n, env) for n in fn.find('CallExpr') if strip(n.kids[0]).ref == m.p_scaffold]
-        ok = len(sc) == 1 and len(sc[0][2]) == 4 and sc[0][2][0] == V(cbparam) and sc[0][2][1] == V(pr[0])
-        if ok and kind == 'binary':
-            ok = sc[0][2][2] == V(pr[1])
-        rep.check(ok, R, w, 'cache:%s:callback' % kind, '%s lambda asks the %s callback with the same ids' % (kind, kind),
-                  '%s lambda calls scaffold as %s' % (kind, [show(x) for x in sc]))
+        P2 = Paths(fn2, env2)
+        rets = [p_[2] for p_ in P2.paths]
+        good = {canon(('addr', ('mcall', cache, 'at', (K,))))}
+        if itv is not None:
+            good.add(canon(('addr', M(itv, 'second'))))
+        ok = bool(rets) and all(r is not None and canon(r) in good for r in rets)
+        rep.check(ok, R, w2, 'cache:%s:return' % kind, '%s lookup returns the stored vector for the key' % kind,
+                  '%s lookup returns %s' % (kind, [canon(r) if r else None for r in rets]))
+        sc = [term(n, env2) for n in fn2.find('CallExpr') if strip(n.kids[0]).ref == m.p_scaffold]
+        want_cb = V(bind['cb']) if bind['cb'] else V(cbparam)
+        ok = len(sc) == 1 and len(sc[0][2]) == 4 and sc[0][2][0] == want_cb and sc[0][2][1] == V(bind['x'])
+        if ok and bind['y'] is not None:
+            ok = sc[0][2][2] == V(bind['y'])
+        rep.check(ok, R, w2, 'cache:%s:callback' % kind, '%s lookup asks the %s callback with the same ids' % (kind, kind),
+                  '%s lookup calls scaffold as %s' % (kind, [show(x) for x in sc]))
 
 
 def r_items_immutable(m, rep, R):
@@ -970,7 +1056,16 @@ def r_ids_not_ordered(m, rep, R):
                 n += 1
                 t = term(a, e)
                 for side in (t[2], t[3]):
-                    if any(x[0] == 'mem' and x[2] in ('cat', 'cat_id') for x in subterms(side)):
+                    # the id itself (possibly in arithmetic) is an operand; ids inside calls (count(id) > 0) are lookups
+                    def direct(x):
+                        if x[0] == 'mem' and x[2] in ('cat', 'cat_id'):
+                            return True
+                        if x[0] == 'bin' and x[1] in ('+', '-', '*'):
+                            return direct(x[2]) or direct(x[3])
+                        if x[0] == 'cond':
+                            return direct(x[2]) or direct(x[3])
+                        return False
+                    if direct(side):
                         bad.append((a.line, name, show(t)[:80]))
     for line, name, txt in bad:
         rep.violation(R, _w(line, name), 'ids-ordered:' + name, 'a category id takes part in an ordering comparison (%s): ids of derived categories depend on what was parsed before' % txt)
@@ -991,25 +1086,24 @@ def r_nbest(m, rep, R):
     # after the loop: cell = goal(0,0); cell.sort(); for item in cell: token_id = 0; finalizer(&item, &token_id, cache, args)
     idx = m.top.index(m.main_loop)
     tail = m.top[idx + 1:]
-    cellv = None
+    goal_cell = IDX(V(m.goal), LIT(0), LIT(0))
+    cell_names = {canon(goal_cell)}
     for st in tail:
         for d in st.find('VarDecl'):
             i = env.init_of(d)
-            if i is not None and canon(term(i, env)) == canon(IDX(V(m.goal), LIT(0), LIT(0))):
-                cellv = V(d.name)
-    rep.check(cellv is not None, R, _w(m.main_loop.line), 'nbest:goal-cell', 'results are read from the goal cell goal(0,0)',
-              'the goal cell is not read after the search')
-    if cellv is None:
-        return
+            if i is not None and canon(term(i, env)) == canon(goal_cell):
+                cell_names.add(canon(V(d.name)))
     sort_i = fr_i = None
     fr = None
     for i, st in enumerate(tail):
-        if st.kind == 'CXXMemberCallExpr' and canon(term(st, env)) == canon(('mcall', cellv, 'sort', ())):
-            sort_i = i
+        if st.kind == 'CXXMemberCallExpr':
+            t = term(st, env)
+            if t[0] == 'mcall' and t[2] == 'sort' and not t[3] and canon(t[1]) in cell_names:
+                sort_i = i
         if st.kind == 'CXXForRangeStmt':
             fr_i, fr = i, st
-    rep.check(sort_i is not None and fr_i is not None and sort_i < fr_i, R, _w(tail[0].line), 'nbest:sort-before-output',
-              'the goal cell is sorted before the finalizer loop', 'goal cell is not sorted before results are emitted')
+    rep.check(sort_i is not None and fr_i is not None and sort_i < fr_i, R, _w(tail[0].line if tail else m.main_loop.line), 'nbest:sort-before-output',
+              'the goal cell goal(0,0) is sorted before the finalizer loop', 'goal cell is not sorted before results are emitted')
     if fr is not None:
         calls = [n for n in fr.find('CallExpr') if strip(n.kids[0]).ref == m.p_fin]
         ok = False
@@ -1019,7 +1113,7 @@ def r_nbest(m, rep, R):
             rng = [c for c in ctx if c[0] == 'range']
             t = term(calls[0], env)
             args = t[2]
-            ok = (len(rng) == 1 and rng[0][2] is not None and canon(rng[0][2]) == canon(cellv)
+            ok = (len(rng) == 1 and rng[0][2] is not None and canon(rng[0][2]) in cell_names
                   and len(args) == 4 and canon(args[0]) == canon(('addr', V(rng[0][1])))
                   and args[2] == V(m.p_cache) and args[3] == V(m.p_finargs) and args[1][0] == 'addr')
             detail = 'finalizer(%s) over %s' % (', '.join(canon(a) for a in args), canon(rng[0][2]) if rng and rng[0][2] else '?')
@@ -1042,6 +1136,9 @@ def r_nbest(m, rep, R):
         pr = [p.name for p in cxx.params_of(op)]
         p = Paths(op).paths
         got = expand_methods(p[0][2], m) if len(p) == 1 and p[0][2] else None
+        if got is not None and got[0] == 'bin' and got[1] in ('<', '>') and got[2][0] == 'var' and got[3][0] == 'var':
+            # items compared with operator< (checked by R1.1 to be a comparison of score())
+            got = ('bin', got[1], ADD(M(got[2], 'in_score'), M(got[2], 'out_score')), ADD(M(got[3], 'in_score'), M(got[3], 'out_score')))
         spec = ('bin', '>', ADD(M(V(pr[0]), 'in_score'), M(V(pr[0]), 'out_score')),
                 ADD(M(V(pr[1]), 'in_score'), M(V(pr[1]), 'out_score')))
         senv = cxx.Env(srt)
@@ -1102,15 +1199,29 @@ def r_beam(m, rep, R):
     if sc is None:
         rep.violation(R, s.where(), 'beam:candidate', 'candidate variable not found')
         return
-    # the keep test: innermost if around the push, else-branch breaks
+    # the keep test: the one condition inside the candidate loop under which the leaf is pushed; a candidate that fails
+    # it ends the loop (else-branch break, or a guard clause `if (!keep) break;` before the push)
     ifs = [c for c in s.ctx if c[0] == 'if' and c[3] in list(body.walk())]
-    if len(ifs) != 1 or ifs[0][2] is not True:
+    if len(ifs) != 1:
         rep.violation(R, s.where(), 'beam:keep-test', 'the leaf push is not guarded by exactly one keep-test inside the candidate loop')
         return
-    keep, ifnode = ifs[0][1], ifs[0][3]
-    els = ifnode.kids[2] if len(ifnode.kids) > 2 else None
-    ok = els is not None and any(k.kind == 'BreakStmt' for k in els.walk()) and not els.find('CXXMemberCallExpr')
-    rep.check(ok, R, _w(ifnode.line), 'beam:early-stop', 'the first candidate failing the test ends the word\'s loop (else break)',
+    keep, pol, ifnode = ifs[0][1], ifs[0][2], ifs[0][3]
+    while keep[0] == 'un' and keep[1] == '!':
+        keep, pol = keep[2], not pol
+    if not pol:
+        if keep[0] == 'bin' and keep[1] in ('<', '>', '<=', '>='):
+            # !(a <= b) is a > b etc. (identical for every pair of floats the scores can take here except NaN)
+            keep = ('bin', {'<': '>=', '>': '<=', '<=': '>', '>=': '<'}[keep[1]], keep[2], keep[3])
+        else:
+            rep.violation(R, s.where(), 'beam:keep-test', 'the leaf push happens when the keep-test fails')
+            return
+    kids = ifnode.kids
+    if ifs[0][2] is True:
+        els = kids[2] if len(kids) > 2 else None
+        stops = els is not None and any(k.kind == 'BreakStmt' for k in els.walk()) and not els.find('CXXMemberCallExpr')
+    else:
+        stops = any(k.kind == 'BreakStmt' for k in kids[1].walk()) and not kids[1].find('CXXMemberCallExpr')
+    rep.check(stops, R, _w(ifnode.line), 'beam:early-stop', 'the first candidate failing the test ends the word\'s loop (break)',
               'a failing candidate does not end the loop')
     # resolve the threshold variable (kept as a variable by the inliner because it reads top())
     score = M(sc, 'first')
